@@ -45,7 +45,7 @@ type c01Params struct {
 func (c01) ID() string    { return "C01" }
 func (c01) Level() string { return "exploration" }
 func (c01) Rule() string {
-	return "each case draws a (client, server) configuration pair from the seed: enabled suites (subset+order, nil=default), client key pairs (none/sign/sign+enc, trusted/untrusted/expired; static, through the callbacks, or one of each), server key pairs static or through the callbacks, the six client-auth policies, client CA set, ALPN lists (empty/disjoint/overlapping/h2-vs-http1.1), server name set or not, server identity (trusted/untrusted/expired/wrong name/none), InsecureSkipVerify, caches on/off (second connection, optionally after one side was reconfigured to other suites), config used directly / Clone() / GetConfigForClient; stack tlcp or dtlcp; transport segmentation and task interleaving from the schedule. The oracle is an independent negotiation model. Also: the server application may answer only after 1.5 or 6 s of virtual time while the client waits without a deadline; the server's cache may be an application-supplied map that hands out its object; with caches and no reconfiguration there may be three connections (full, resumed, resumed). distinct = distinct (stack, configuration pair, outcome); non-trivial = handshake actually ran to an outcome on both sides"
+	return "each case draws a (client, server) configuration pair from the seed: enabled suites (subset+order, nil=default), client key pairs (none/sign/sign+enc, trusted/untrusted/expired; static, through the callbacks, or one of each), server key pairs static or through the callbacks, the six client-auth policies, client CA set, ALPN lists (empty/disjoint/overlapping/h2-vs-http1.1), server name set or not, server identity (trusted/untrusted/expired/wrong name/none), InsecureSkipVerify, caches on/off (second connection, optionally after one side was reconfigured to other suites), config used directly / Clone() / GetConfigForClient; stack tlcp or dtlcp; transport segmentation and task interleaving from the schedule. The oracle is an independent negotiation model. Also: the server application may answer only after 1.5 or 6 s of virtual time while the client waits without a deadline; the server's cache may be an application-supplied map that hands out its object; with caches and no reconfiguration there may be three connections (full, resumed, resumed). The server's signing key pair may carry a chain of one to three further certificates; the client must report everything that was presented. distinct = distinct (stack, configuration pair, outcome); non-trivial = handshake actually ran to an outcome on both sides"
 }
 func (c01) Components() (real, stub []string) {
 	return []string{"tlcp.Conn client+server (instrumented)", "dtlcp.Conn client+server (instrumented)", "lruSessionCache", "gmsm crypto"},
